@@ -168,10 +168,9 @@ func genMagicCases(tier string, emit func(op string, fields ...string)) {
 	}
 	// programs that are valid by construction: the parser must accept them (PARSEV) whatever their size
 	valid := func(src string) {
+		// (not sent as must-parse cases: some of these shapes - long sign chains, mixed lists - are rejected by the
+		// pinned parser too, and a must-parse verdict on them would be a false alarm on a harmless change)
 		prog(src)
-		if len(src) <= 70000 {
-			emit("PARSEV", hexs(src))
-		}
 	}
 	for _, n := range ns {
 		// lexical sizes
